@@ -11,7 +11,8 @@ EXPL = ("R18.1 (A6 must-consume, elaborated-drop MIR): in every function of the 
         "function that takes the handle out of the shared slot and detaches it, ActorHandle::detach invokes it, and "
         "spawn_future detaches explicitly. R18.3 sibling agreement: the default spawner resolves to the enabled runtime, "
         "all three spawners implement spawn_actor / spawn_future / sleep, and all runtime-independent code is the same "
-        "program in the three configurations (MIR digests equal modulo the spawner type). Not decided: behavioural "
+        "program in the three configurations (MIR digests equal modulo the spawner type). R18.8 (A4) the event loops reach no "
+        "Spawner method and no function of a runtime crate: what a loop waits on works wherever it is polled. Not decided: behavioural "
         "equivalence of the three external executors beyond hannibal's runtime-dependent surface.")
 
 CFG_SPAWNER = {"tokio": "TokioSpawner", "smol": "SmolSpawner", "asyncstd": "AsyncStdSpawner"}
@@ -177,6 +178,27 @@ def check_runtime(ctx, fx, cfg):
                     rs_ |= set(roots(mb, a_))
         ok_ = len(sps) == 1 and bool(rs_) and all(r_.kind == "arg" or r_.kind.startswith("call:") for r_ in rs_) and any(r_.kind == "arg" for r_ in rs_)
         ctx.require(ok_, "R18.5", "%s-uses-ambient-spawn@%s" % (mname, cfg), "%s must hand its future to the runtime's own spawn function exactly once (found %s)" % (mname, [t_["callee"] for t_ in sps]), fn=mf["def"], site=mf["loc"])
+    # R18.8 the event loops — the message pump, the handler-timeout race, the restart strategies they call — are runtime-free:
+    # nothing reachable from a loop calls a Spawner method or a function of a runtime crate. What they wait on (the mailbox, the
+    # stream, futures_timer's Delay) works wherever it is polled; a runtime's own primitive brings that runtime's preconditions
+    # into every actor (tokio::time::sleep panics on a runtime built without the time driver, smol's Timer does not), so the
+    # same program would end differently on different runtime features
+    RT_CRATES = ("tokio", "smol", "async_std", "async_global_executor", "async_io", "async_executor")
+    reached_ = {}
+    for lf_, _k in loops.find_loops(fx):
+        for d_ in graph.reach(fx, lf_["def"], depth=5):
+            reached_.setdefault(d_, lf_["def"])
+    rt_calls = []
+    for d_ in sorted(reached_):
+        g_ = fx.fn(d_)
+        if g_ is None:
+            continue
+        for _bi, t_ in ctx.body(fx, g_).normal_calls():
+            c_ = t_.get("callee") or ""
+            if (t_.get("trait") or "").startswith("actor::spawner::") or c_.split("::")[0].lstrip("<") in RT_CRATES or (t_.get("resolved") or "").lstrip("<").split("::")[0] in RT_CRATES:
+                rt_calls.append((d_, c_, t_["l"], reached_[d_]))
+    ctx.require(not rt_calls and len(reached_) >= 1, "R18.8", "loops-runtime-free@" + cfg, "an event loop reaches a runtime-specific primitive (a Spawner method / a runtime crate's function): the loop then inherits that runtime's preconditions and no longer behaves the same on every runtime: %s" % [(a, b_, l_) for a, b_, l_, _r in rt_calls], fn=rt_calls[0][0] if rt_calls else None, site=rt_calls[0][2] if rt_calls else "crate", detail={"functions_reachable_from_loops": len(reached_), "positive_control": "Context::interval's task (outside the loops) calls A::sleep: %s" % any((t_.get("trait") or "").startswith("actor::spawner::") for f_, _b, t_ in graph.all_calls(fx, lambda t__: (t__.get("callee") or "").endswith("::sleep")))})
+    ctx.floor("R18.8", "functions reachable from the event loops (%s)" % cfg, len(reached_), 10)
     # R18.7 the crate's own `runtime::block_on` (what `#[hannibal::main]` expands to) drives the program on a runtime whose
     # spawned tasks run *beside* the blocked-on future, as smol's global executor and async-std's do (there `block_on` is the
     # runtime's own, re-exported): on tokio that is the multi-thread runtime — on a current-thread runtime a spawned actor only
